@@ -60,9 +60,17 @@ def _lanczos_case(chk, n, m, mode):
     import jax.numpy as jnp
     from nifty.re.num import lanczos as lz
     rng = np.random.default_rng(34 + 10 * n + m + chk.seed)
-    B = rng.integers(-3, 4, size=(n, n))
-    A0 = (B @ B.T + n * np.eye(n)).astype(float)
-    v0 = rng.integers(1, 5, size=n).astype(float)
+    # the shadow point must be generic: no Lanczos breakdown within the order (the documented zero padding after a breakdown is
+    # another region of the input space, where the identities are not claimed)
+    for _ in range(100):
+        B = rng.integers(-3, 4, size=(n, n))
+        A0 = (B @ B.T + n * np.eye(n)).astype(float)
+        v0 = rng.integers(1, 5, size=n).astype(float)
+        T0, _ = lz.lanczos_tridiag(lambda x: jnp.asarray(A0) @ x, jnp.asarray(v0), order=m)
+        if m == 1 or np.min(np.abs(np.diag(np.asarray(T0), 1))) > 1e-2:
+            break
+    else:
+        raise AssertionError("no generic shadow point found")
     As = _sym_matrix(n, mode in ("A", "Av"), A0)
     vs = jaxsym.symbols((n,), "v", real=True) if mode in ("v", "Av") else np.array([sp.Integer(int(x)) for x in v0], dtype=object)
     shadow = {sp.Symbol(f"a{min(i, j)}{max(i, j)}", real=True): sp.Integer(int(A0[i, j])) for i in range(n) for j in range(n)}
